@@ -173,6 +173,9 @@ def _div(a, b):
             s.values.append(a // b)  # SWI iso=false: exact integer result
         try:
             s.merge(_float_result(_tofloat(a) / _tofloat(b)))  # Yap, SWI when inexact (and iso=true)
+            # beyond 2^53 the operands are not representable: the correctly rounded quotient of the integers (GMP
+            # based systems, Python) can differ from float(a)/float(b) in the last bit; both are admitted
+            s.merge(_float_result(a / b))
         except OverflowError:
             s.merge(Spec(error=True, nonfinite=True, tags=["float-overflow"]))
         except ZeroDivisionError:  # cannot happen (b != 0 and float(b) != 0)
